@@ -431,13 +431,17 @@ fn run_case(c: &Case) -> CaseResult {
                     }
                     Err(e) => format!("err:{}", errno_of(&e)),
                 },
-                Op::WaitTimeout(d) => match p.wait_timeout(Duration::from_nanos(*d)) {
-                    Ok(None) => "none".to_string(),
-                    Ok(Some(s)) => {
+                Op::WaitTimeout(d) => match std::panic::catch_unwind(std::panic::AssertUnwindSafe(|| p.wait_timeout(Duration::from_nanos(*d)))) {
+                    Ok(Ok(None)) => "none".to_string(),
+                    Ok(Ok(Some(s))) => {
                         reported = Some(show_status(s));
                         show_status(s)
                     }
-                    Err(e) => format!("err:{}", errno_of(&e)),
+                    Ok(Err(e)) => format!("err:{}", errno_of(&e)),
+                    Err(_) => {
+                        oracle.push(("C11".into(), format!("wait_timeout({} ns) panicked instead of answering (clock arithmetic?)", d)));
+                        "panic".to_string()
+                    }
                 },
                 Op::Terminate => match p.terminate() {
                     Ok(()) => "ok".into(),
@@ -514,6 +518,16 @@ fn run_case(c: &Case) -> CaseResult {
                 }
                 if matches!(op, Op::Terminate | Op::Kill | Op::SendSignal(_)) && ret != "ok" {
                     oracle.push(("C10".into(), format!("{} returned {} after the child's termination was observed", op.show(), ret)));
+                }
+            }
+            // C09: the library asks about ITS child only: waitpid(-1 / 0 / another pid) collects -- and then drops -- the status
+            // of an unrelated child of the process, which that child's owner will never see
+            for cl in new_calls.iter() {
+                if let Some(rest) = cl.strip_prefix("wp:") {
+                    let pid_tok = rest.split(':').next().unwrap_or("");
+                    if pid_tok != CANON_PID.to_string() {
+                        oracle.push(("C09".into(), format!("{} waited for pid {} which is not its child (-1 / 0 = any child): the exit status of an unrelated child can be collected and lost", op.show(), pid_tok)));
+                    }
                 }
             }
             // C09: reaped by someone else => Undetermined, not an error
